@@ -1,3 +1,7 @@
 #!/bin/bash
-# run the repository's own suite with the verification guard OFF (MANIFEST.hooks.baseline_off_cmd)
-cd "${VERIF_REPO:-/repo}" && env -u AVERBRAECK_PYDSOL_CORE_VERIF /venv/bin/python -m pytest -ra -q -p no:cacheprovider --timeout=900 --continue-on-collection-errors "$@"
+# MANIFEST.hooks.baseline_off_cmd: the repository's own suite, exactly as in /root/.vp/BASELINE.json, with the
+# verification guard OFF (no source hooks exist; the variable is unset anyway).  junit goes to .tmp/ (git-ignored).
+ROOT="$(cd "$(dirname "$0")/.." && pwd)"
+mkdir -p "$ROOT/.tmp"
+cd "${VERIF_REPO:-/repo}" && env -u AVERBRAECK_PYDSOL_CORE_VERIF /venv/bin/python -m pytest -ra -q -p no:cacheprovider \
+   --timeout=900 --continue-on-collection-errors --junitxml="$ROOT/.tmp/baseline.junit.xml" "$@"
